@@ -74,6 +74,18 @@ func (x *Exec) call(fr *Frame, st *State, in ssa.CallInstruction, pos token.Pos)
 	if fv.K == KFunc && fv.Term != nil && x.rootFrame != nil && x.rootFrame.contract != nil && x.rootFrame.contract.PureCallbacks {
 		return x.callbackCall(fv, c.Value.Type(), args, resT)
 	}
+	// a closure calling a sibling closure through a variable of the enclosing function that is assigned exactly once,
+	// to a closure literal (isIn := func..; iter = func(){ .. isIn(x) .. }): the callee's identity is known
+	if fr == x.rootFrame && x.rootFrame != nil && x.rootFrame.fn.Parent() != nil {
+		if u, ok := c.Value.(*ssa.UnOp); ok && u.Op == token.MUL {
+			if fvv, isFV := u.X.(*ssa.FreeVar); isFV {
+				if sfn, sbind := x.siblingThroughCell(x.rootFrame.fn, fvv, x.rootFrame.bind); sfn != nil && sfn != x.rootFrame.fn {
+					x.trusted["the function variable "+exprText(c.Value)+" called by "+funcDisplayName(x.rootFrame.fn)+" holds the closure literal it is assigned in the enclosing function (assigned exactly once there)"] = true
+					return x.callStatic(fr, st, sfn, args, sbind, resT, pos)
+				}
+			}
+		}
+	}
 	// `selfcallback`: a recursive closure calling itself through the variable it is assigned to (var iter func(..);
 	// iter = func(..) { .. iter(x) .. }): the call is a call of the closure under verification, with the same captures
 	if fr == x.rootFrame && x.rootFrame != nil && x.rootFrame.contract != nil && x.rootFrame.contract.SelfCallback && x.rootFrame.fn.Parent() != nil {
@@ -1050,6 +1062,10 @@ func (x *Exec) VerifyFunction(fn *ssa.Function, c *Contract) (res *VerifyResult)
 		}
 		bind = append(bind, v)
 	}
+	// a captured function value that the enclosing function binds to another closure literal (isIn := func..;
+	// iter := func(){ .. isIn(x) .. }) has a statically known identity: calls through it are calls of that closure,
+	// whose own captures are this closure's captures of the same variables
+	x.bindSiblingClosures(fn, bind)
 	// input slices start at offset 0
 	for _, a := range append(append([]*Value{}, args...), bind...) {
 		x.assumeZeroOffsets(a)
@@ -1511,4 +1527,128 @@ func closureAssigns(fn *ssa.Function, i int) bool {
 		}
 	}
 	return false
+}
+
+// bindSiblingClosures: see VerifyFunction. Only by-value captures (the variable is never reassigned, so go/ssa passes
+// the closure value itself) are resolved.
+func (x *Exec) bindSiblingClosures(fn *ssa.Function, bind []*Value) {
+	parent := fn.Parent()
+	if parent == nil {
+		return
+	}
+	var mk *ssa.MakeClosure
+	for _, b := range parent.Blocks {
+		for _, in := range b.Instrs {
+			if m, ok := in.(*ssa.MakeClosure); ok && m.Fn == ssa.Value(fn) {
+				if mk != nil {
+					return // created at more than one place: not resolved
+				}
+				mk = m
+			}
+		}
+	}
+	if mk == nil {
+		return
+	}
+	for i, bnd := range mk.Bindings {
+		if i >= len(bind) {
+			break
+		}
+		sib, ok := bnd.(*ssa.MakeClosure)
+		if !ok {
+			continue
+		}
+		sfn, ok := sib.Fn.(*ssa.Function)
+		if !ok {
+			continue
+		}
+		var sbind []*Value
+		resolved := true
+		for _, sb := range sib.Bindings {
+			found := false
+			for k, mine := range mk.Bindings {
+				if mine == sb && k < len(bind) {
+					sbind = append(sbind, bind[k])
+					found = true
+					break
+				}
+			}
+			if !found {
+				resolved = false
+				break
+			}
+		}
+		if !resolved {
+			continue
+		}
+		bind[i] = &Value{K: KFunc, T: bind[i].T, Fn: sfn, Bind: sbind, Term: x.fnRef(sfn)}
+	}
+}
+
+// siblingThroughCell resolves a by-reference captured function variable of closure fn to the closure literal the
+// enclosing function stores in it (exactly one store in the enclosing function), with that literal's captures
+// mapped to fn's own captures of the same variables.
+func (x *Exec) siblingThroughCell(fn *ssa.Function, fv *ssa.FreeVar, bind []*Value) (*ssa.Function, []*Value) {
+	parent := fn.Parent()
+	if parent == nil {
+		return nil, nil
+	}
+	idx := -1
+	for i, f := range fn.FreeVars {
+		if f == fv {
+			idx = i
+		}
+	}
+	var mk *ssa.MakeClosure
+	for _, b := range parent.Blocks {
+		for _, in := range b.Instrs {
+			if m, ok := in.(*ssa.MakeClosure); ok && m.Fn == ssa.Value(fn) {
+				if mk != nil {
+					return nil, nil
+				}
+				mk = m
+			}
+		}
+	}
+	if mk == nil || idx < 0 || idx >= len(mk.Bindings) {
+		return nil, nil
+	}
+	cell, ok := mk.Bindings[idx].(*ssa.Alloc)
+	if !ok {
+		return nil, nil
+	}
+	var sib *ssa.MakeClosure
+	stores := 0
+	for _, b := range parent.Blocks {
+		for _, in := range b.Instrs {
+			if st, ok := in.(*ssa.Store); ok && st.Addr == ssa.Value(cell) {
+				stores++
+				if m, ok := st.Val.(*ssa.MakeClosure); ok {
+					sib = m
+				}
+			}
+		}
+	}
+	if stores != 1 || sib == nil {
+		return nil, nil
+	}
+	sfn, ok := sib.Fn.(*ssa.Function)
+	if !ok {
+		return nil, nil
+	}
+	var sbind []*Value
+	for _, sb := range sib.Bindings {
+		found := false
+		for k, mine := range mk.Bindings {
+			if mine == sb && k < len(bind) {
+				sbind = append(sbind, bind[k])
+				found = true
+				break
+			}
+		}
+		if !found {
+			return nil, nil
+		}
+	}
+	return sfn, sbind
 }
